@@ -308,6 +308,9 @@ def main():
                 fprops |= set(f["props"])
             if rg is None or not fprops:
                 untagged_fail.append((r["unit"], rid, fl[0]))
+            elif ("~" + pid) in fprops and pid not in fprops:
+                # an obligation that only SUPPORTS this property's clauses failed: the property is undecided, not violated
+                undec_reasons.append("%s: supporting obligation %s failed (it belongs to %s)" % (r["unit"], rid, ",".join(sorted(p for p in fprops if not p.startswith("~")))))
             elif pid in fprops:
                 failed.append((r["unit"], rid, fl[0]))
             else:
